@@ -211,3 +211,7 @@ pub assume_specification<P: core::str::pattern::Pattern>[ str::ends_with::<P> ](
 pub assume_specification<P: core::str::pattern::Pattern>[ str::contains::<P> ](s: &str, p: P) -> (r: bool);
 pub assume_specification[ std::thread::panicking ]() -> (r: bool);
 pub assume_specification[ usize::leading_zeros ](x: usize) -> (r: u32) ensures r <= 64;
+pub assume_specification[ <u32 as From<bool>>::from ](b: bool) -> (r: u32) ensures r == (if b { 1u32 } else { 0u32 });
+pub assume_specification[ <u8 as From<bool>>::from ](b: bool) -> (r: u8) ensures r == (if b { 1u8 } else { 0u8 });
+pub assume_specification[ <u64 as From<bool>>::from ](b: bool) -> (r: u64) ensures r == (if b { 1u64 } else { 0u64 });
+pub assume_specification[ <usize as From<bool>>::from ](b: bool) -> (r: usize) ensures r == (if b { 1usize } else { 0usize });
